@@ -158,6 +158,8 @@ def gen_form(g, allow_E=True, stream=False, errors=True):
             {"src": f"(do (E {t1}) (do))", "val": ["none"]},
             {"src": f"(do {a} (pragma :warn-on-core-shadow True))", "val": ["none"]},
             {"src": f"(cond False (E {t1}))", "val": ["none"]},
+            {"src": f"(do (defn fn{a} [] (E {t1})) (fn{a}))", "val": ["int", t1]},
+            {"src": f"(do (defclass K{a} [] (setv attr {a})) (+ K{a}.attr (E {t1})))", "val": ["int", a + t1]},
             {"src": f"(setx sx{a} (if True (do (setv q{a} 1) (E {t1})) 2))", "val": ["int", t1]},
             {"src": f"(setx sy{a} (try (E {t1}) (except [ValueError] 2)))", "val": ["int", t1]},
             {"src": f"(when False (E {t1}))", "val": ["none"]},
@@ -214,11 +216,13 @@ def generate(rng, tier):
         pos = rng.randrange(len(calls) + 1)
         sh = rng.choice(["g", "gl", "l"])
         dd = [rng.randrange(ndicts), rng.randrange(ndicts)]
+        rk = rng.choice(["list", "dict"])
+        want_v = ["list", [1, [2, 3]]] if rk == "list" else ["dictv", [1, [2, 3]]]
         calls[pos:pos] = [
-            {"shape": sh, "d": dd, "mode": "raw", "raw": "bad", "plan": {},
+            {"shape": sh, "d": dd, "mode": "raw", "raw": "bad", "plan": {}, "rawkind": rk,
              "forms": [{"src": "<python list with an unrepresentable leaf>", "val": ["none"], "err": "HyWrapperError"}]},
-            {"shape": sh, "d": dd, "mode": "raw", "raw": "healed", "plan": {},
-             "forms": [{"src": "<the same list, healed>", "val": ["list", [1, [2, 3]]]}]}]
+            {"shape": sh, "d": dd, "mode": "raw", "raw": "healed", "plan": {}, "rawkind": rk,
+             "forms": [{"src": "<the same value, healed>", "val": want_v}]}]
     d = {"dicts": dicts, "calls": calls}
     if internal_run:
         d["isolate"] = True
@@ -239,6 +243,8 @@ def _expected_value(val):
         return hy.models.Keyword(val[1])
     if k == "list":
         return val[1]
+    if k == "dictv":
+        return {"k": val[1]}
     raise ValueError(k)
 
 
@@ -252,6 +258,9 @@ def _model_for(call):
         # unrepresentable leaf, then healed
         L = _RAW.setdefault("L", [1, [2, None]])
         L[1][1] = object() if call["raw"] == "bad" else 3
+        if call.get("rawkind") == "dict":
+            D = _RAW.setdefault("D", {"k": L})
+            return D
         return L
     srcs = [f["src"] for f in call["forms"]]
     if call["mode"] == "single":
